@@ -22,6 +22,15 @@ func Honest(id *keys.Identity, payload []byte, seqno uint64) *signaling.SessionM
 	return m
 }
 
+// HonestHash is Honest with a chosen hash type (the signer's choice).
+func HonestHash(id *keys.Identity, ht hash.HashType, payload []byte, seqno uint64) *signaling.SessionMsg {
+	m, err := signaling.NewSessionMsg(id.Priv, ht, payload, seqno)
+	if err != nil {
+		panic(err)
+	}
+	return m
+}
+
 // OtherContext builds a message correctly signed by id but under a different
 // signing context (not a signaling message).
 func OtherContext(id *keys.Identity, payload []byte, seqno uint64) *signaling.SessionMsg {
